@@ -300,23 +300,32 @@ class Exec:
         depth = len(st.frames)
         self.new_frame(st, fn, [])
         fr = st.frames[-1]
-        while True:
-            bb = fn.blocks[fr['bb']]
-            for s_ in bb.stmts:
-                if s_.lhs is None: continue
-                oid, key, ty = self.lvalue(st, fr, s_.lhs)
-                st.heap[oid][key] = self.rvalue(st, fr, s_.rv, ty)
-            if bb.term.kind == 'return':
-                v = st.heap[fr['locals']][0]
-                st.frames.pop()
-                return v
-            if bb.term.kind == 'goto':
-                fr['bb'] = bb.term.data['target']; continue
-            if bb.term.kind == 'call':
-                outs = self.call(st, fr, bb.term)
-                assert len(outs) == 1 and outs[0] is st, 'forking call in const body'
-                continue
-            raise RuntimeError('const body too complex: ' + fn.name)
+        try:
+            for _ in range(200):
+                bb = fn.blocks[fr['bb']]
+                for s_ in bb.stmts:
+                    if s_.lhs is None: continue
+                    oid, key, ty = self.lvalue(st, fr, s_.lhs)
+                    st.heap[oid][key] = self.rvalue(st, fr, s_.rv, ty)
+                if bb.term.kind == 'return':
+                    return st.heap[fr['locals']][0]
+                if bb.term.kind == 'goto':
+                    fr['bb'] = bb.term.data['target']; continue
+                if bb.term.kind == 'assert':
+                    # `const N: u64 = 256 * 1024;` is checked arithmetic: the overflow flag of a constant expression is a constant
+                    c = self.operand(st, fr, bb.term.data['cond'])
+                    v = z3.simplify(c.t)
+                    if (z3.is_true(v) and bb.term.data['expected']) or (z3.is_false(v) and not bb.term.data['expected']):
+                        fr['bb'] = bb.term.data['target']; continue
+                    raise RuntimeError('const body: assertion not constant-true in ' + fn.name)
+                if bb.term.kind == 'call':
+                    outs = self.call(st, fr, bb.term)
+                    assert len(outs) == 1 and outs[0] is st, 'forking call in const body'
+                    continue
+                raise RuntimeError('const body too complex: ' + fn.name)
+            raise RuntimeError('const body does not end: ' + fn.name)
+        finally:
+            del st.frames[depth:]           # never leave the constant's frame behind, whatever happened
 
     def const(self, st, text, ty_hint=None):
         text = text.strip()
